@@ -14,10 +14,12 @@ def run(report):
     add_obs(report, _lexemes)
     report.assume("reference for the lexeme obligations: the regex grammar shipped in the running CPython's tokenize "
                   "module (python3-vt = 3.11) and token.EXACT_TOKEN_TYPES; version differences only through ':=' (3.8+)",
-                  "stream level: only the interpreter of the test suite (CPython 3.12) is available as reference, the "
-                  "interpreters 3.6-3.10 and 3.13 named by the property are absent offline; versions other than 3.12 are "
-                  "covered only through the token-collection code they share",
+                  "stream level: the reference for version V is the tokenize module of CPython V (3.12 in process, the others "
+                  "through harness/ref_tokens.py under the interpreters of ~/.pyenv/versions); before 3.12 that module is the "
+                  "pure-Python tokenizer, taken as equal to the C tokenizer on programs it reports no ERRORTOKEN for; a version "
+                  "without an interpreter (3.14) is not compared (pred_stats counts them)",
                   "A-CHARS: z3's character sort ends at U+2FFFF; range bounds above are clipped (no pattern of parso "
                   "distinguishes characters above that bound from those just below)")
-    run_bounded(report, ['stmt'], versions='3.12', rnd_versions='3.12', scale=1.5,
+    vs = '3.6,3.8,3.12' if report.tier == 'quick' else '3.6,3.7,3.8,3.9,3.10,3.11,3.12,3.13'
+    run_bounded(report, ['stmt'], versions=vs, rnd_versions='3.6,3.7,3.8,3.9,3.10,3.11,3.12,3.13', scale=1.5,
                 extra='stdlib60' if report.tier == 'quick' else 'stdlib400')
